@@ -309,12 +309,17 @@ def plan_c13(res, tier, seed, only):
                                             "equal hash-without-ep, the ep key is the behavioural key"]
     oracle_validation(res)
     cap = 600 if tier == "quick" else 2700
-    qs = [Query("brd::c13_ep_effect_%s" % s, stubbing=True, rules=board_rules(), default_unwind=2, timeout=cap, mem_gb=8) for s in "wb"]
+    names = ["c13_ep_effect_w", "c13_ep_effect_b"] + (["c13_ep_sym_w", "c13_ep_sym_b"] if tier == "thorough" else ["c13_ep_sym_" + "wb"[seed % 2]])
+    qs = [Query("brd::" + nme, stubbing=True, rules=board_rules(), default_unwind=2, timeout=cap, mem_gb=14) for nme in names]
+    if tier == "thorough":
+        qs += [Query("brd::c13_ep_refl_" + c, stubbing=True, rules=board_rules(), default_unwind=2, timeout=cap, mem_gb=24) for c in "wb"]
+    else:
+        res.notrun.append("reflexivity instances and the other colour's symmetry instance: thorough tier")
     if tier == "thorough":
         qs.append(Query("brd::c13_pair", stubbing=True, rules=board_rules(), default_unwind=2, timeout=cap, mem_gb=12))
     else:
         res.notrun.append("c13_pair (two arbitrary accepted boards): thorough tier")
-    engine.run_plan(res, filt(qs, only), workers=3)
+    engine.run_plan(res, filt(qs, only), workers=4)
     return RULE
 
 
